@@ -41,6 +41,7 @@ const (
 	OVERLOAD = "overload"     // the service's own 'currently overloaded' answer
 	MID      = "mid"          // the stream drops after the first update; the server side is cancelled
 	POST     = "post"         // the job wrote all its files, the client sees a dropped stream instead of EOF
+	DRAIN    = "drain"        // the worker's own context is cancelled while the job runs (the instance is draining) but its stream still reaches tier1: the job's modules see a cancelled context, the client receives the status the worker computes
 	MIDC     = "mid-canceled" // like mid, but the client receives the status the worker itself answers when it is cancelled (tier2's real error mapping: Canceled) while the tier1 request is alive
 )
 
@@ -74,6 +75,8 @@ func program(name string) *progs.Prog {
 		return progs.Chain(0)
 	case "samestage":
 		return progs.SameStage(0, 0, 0)
+	case "storemap-ctx": // every module makes a host call that fails, with a non-wrapping error, once the context is cancelled
+		return progs.CtxSensitive(progs.StoreMap(0, 0))
 	}
 	return progs.StoreMap(0, 0)
 }
@@ -166,12 +169,26 @@ func (c *fakeClient) ProcessRange(ctx context.Context, req *pbssinternal.Process
 			}
 			return nil
 		}
-		err := sysrun.RunTier2(srvCtx, c.cfg, req, resp)
+		jobCfg := c.cfg
+		if kind == DRAIN {
+			cp := *c.cfg
+			first := true
+			cp.Tier2AfterBlock = func(_ *pbssinternal.ProcessRangeRequest, _ sysrun.Step) {
+				if first {
+					first = false
+					cancel() // after the job's first block: its next module call finds the context cancelled
+				}
+			}
+			jobCfg = &cp
+		}
+		err := sysrun.RunTier2(srvCtx, jobCfg, req, resp)
 		grpcErr := service.VerifToGRPCError(srvCtx, err)
 		close(st.ch)
 		switch {
 		case kind == MID:
 			st.done <- status.Error(codes.Unavailable, "stream dropped: transport is closing")
+		case kind == DRAIN && grpcErr != nil:
+			st.done <- grpcErr
 		case kind == MIDC:
 			if grpcErr == nil {
 				grpcErr = status.Error(codes.Canceled, "context canceled")
@@ -334,8 +351,8 @@ func Run(ctx *core.Ctx) int {
 		return core.RunReplay(ctx, Eval)
 	}
 	kinds := []string{PRE, OVERLOAD, MID, POST}
-	maxFaults := 3                                                       // the bound the property names; the retry loop counts attempts per job, so three on one job matter
-	progsList := []string{"storemap", "twostages", "chain", "samestage"} // chain: the last stage is fed from cached outputs, not from the block stream
+	maxFaults := 3                                                                       // the bound the property names; the retry loop counts attempts per job, so three on one job matter
+	progsList := []string{"storemap", "twostages", "chain", "samestage", "storemap-ctx"} // chain: the last stage is fed from cached outputs, not from the block stream
 	if ctx.Thorough() {
 		maxFaults = 4
 	}
@@ -353,7 +370,7 @@ func Run(ctx *core.Ctx) int {
 							return false
 						}
 					}
-					if len(cur) == maxFaults || (prog == "samestage" && len(cur) == maxFaults-1) {
+					if len(cur) == maxFaults || ((prog == "samestage" || prog == "storemap-ctx") && len(cur) == maxFaults-1) {
 						return true // the retry logic does not depend on the program: one fault less on the fourth program
 					}
 					for j := from; j < nj; j++ {
@@ -365,6 +382,11 @@ func Run(ctx *core.Ctx) int {
 						}
 						for _, k := range kinds {
 							if !rec(j, append(cur, Fault{Job: j, Attempt: att, Kind: k})) {
+								return false
+							}
+						}
+						if prog == "storemap-ctx" && len(cur) < 2 {
+							if !rec(j, append(cur, Fault{Job: j, Attempt: att, Kind: DRAIN})) {
 								return false
 							}
 						}
@@ -386,6 +408,9 @@ func Run(ctx *core.Ctx) int {
 				}
 				if prog == "chain" {
 					mods = []string{"src", "acc", "m"}
+				}
+				if prog == "storemap-ctx" {
+					mods = nil // the deterministic half is the same as storemap's
 				}
 				if prog == "samestage" { // two stores in one layer: the pipeline runs them concurrently and collects their errors
 					mods = []string{"sa", "sb", "m"}
